@@ -16,24 +16,24 @@ const smtpRel = "pkg/server/smtp"
 // smtpModel resolves the SMTP session's anchors. Types and fields are named; functions are
 // found by role (what they do), so renaming a handler does not break the rules.
 type smtpModel struct {
-	sess                        *types.Named
-	fState, fFrom, fRecips      *types.Var
-	fText                       *types.Var
-	fMaxBytes, fMaxRecips       *types.Var
-	stateT                      *types.Named
-	states                      map[string]int64
-	stateName                   map[int64]string
-	stateWriter                 *ssa.Function
-	send                        *ssa.Function
-	reset                       *ssa.Function
-	newSession                  *ssa.Function
-	root                        *ssa.Function
-	readLine                    *ssa.Function
-	dataRead                    *ssa.Function
-	deliverObj                  *types.Func
-	deliverSites                []ssa.CallInstruction
-	fns                         []*ssa.Function
-	ok                          bool
+	sess                   *types.Named
+	fState, fFrom, fRecips *types.Var
+	fText                  *types.Var
+	fMaxBytes, fMaxRecips  *types.Var
+	stateT                 *types.Named
+	states                 map[string]int64
+	stateName              map[int64]string
+	stateWriter            *ssa.Function
+	send                   *ssa.Function
+	reset                  *ssa.Function
+	newSession             *ssa.Function
+	root                   *ssa.Function
+	readLine               *ssa.Function
+	dataRead               *ssa.Function
+	deliverObj             *types.Func
+	deliverSites           []ssa.CallInstruction
+	fns                    []*ssa.Function
+	ok                     bool
 }
 
 func (c *Ctx) smtp() *smtpModel {
